@@ -27,6 +27,7 @@ Act(e) ==
       [] e.ev = "via"            -> Via(e.u1, e.u2)
       [] e.ev = "scale"          -> Scale(e.k)
       [] e.ev = "container"      -> Container(e.kind, e.t)
+      [] e.ev = "plain"          -> Plain(e.form, e.tw, e.k, e.t)
       [] e.ev = "incompatible"   -> Incompatible(e.t)
       [] e.ev = "dimensionality" -> Dimensionality
       [] e.ev = "defunit"        -> DefaultUnit(e.reg)
@@ -51,6 +52,9 @@ ObsClause(e) ==
              IF ~Near(e.x, x.x) THEN "direct" ELSE IF ~Near(e.y, x.y) THEN "composed" ELSE ""
       [] e.ev = "scale" -> IF ~Near(e.x, E_Scale(e.k).x) THEN "magnitude" ELSE ""
       [] e.ev = "container" -> LET want == E_Container(e.kind, e.t).xs IN
+             IF Len(e.xs) # Len(want) THEN "length"
+             ELSE IF FirstBad(e.xs, want, 1) # 0 THEN "element" ELSE ""
+      [] e.ev = "plain" -> LET want == E_Plain(e.form, e.tw, e.k, e.t).xs IN
              IF Len(e.xs) # Len(want) THEN "length"
              ELSE IF FirstBad(e.xs, want, 1) # 0 THEN "element" ELSE ""
       [] e.ev = "incompatible" -> IF e.raised THEN "" ELSE "missing-raise"
